@@ -90,7 +90,7 @@ pub fn oracle_selftest(seed: u64) {
   let mut r = Rng(seed.wrapping_mul(0x9E3779B97F4A7C15) | 1);
   let lats = [0.0, T, -T, HALF_PI, -HALF_PI, nudge(T, 1), nudge(T, -1), 1e-300, 1.2, -1.2, 1.5707963, -1.5707963];
   let lons = [0.0, PI / 4.0, PI / 2.0, PI, 1.5 * PI, 2.0 * PI, nudge(2.0 * PI, -1), 7.0, -1.0, -PI / 2.0, 12.0, -20.0, 25.0];
-  for &la in lats.iter() { for &lo in lons.iter() { for k in -2i64..=2 { crate::c01::p_c01_all_depths(nudge(lo, k), la); } } }
+  for &la in lats.iter() { for &lo in lons.iter() { for k in -2i64..=2 { crate::c01::p_c01_all_depths(nudge(lo, k), la); for &d in [0u8, 1, 7, 29].iter() { crate::c03::p_c03_point(d, nudge(lo, k), la); } } } }
   for _ in 0..200_000u32 {
     let lon = (r.unit() - 0.5) * 50.0;
     let z = r.unit() * 2.0 - 1.0;
